@@ -1,5 +1,6 @@
 import PkgProofs.Lemmas.MarkerFormat
 import PkgProofs.Lemmas.MarkerLexParse
+import PkgProofs.Lemmas.MarkerWf
 import PkgProofs.Lemmas.MarkerEval
 /-!
 # C09 — Marker string form is canonical and round-trips
@@ -19,7 +20,7 @@ to the **character level** (`Mk.parse`, i.e. the context-sensitive tokenizer wit
 are the ten marker operators and whose literals are plain and contain at most one kind of quote.
 -/
 namespace C09
-open Py Mk Pep508 MkParse MkFmt MkLex MkLexP
+open Py Mk Pep508 MkParse MkFmt MkLex MkLexP MkWf
 set_option linter.unusedSimpArgs false
 
 /-! ### 1. `str` and the token-level format -/
@@ -210,6 +211,70 @@ theorem normalize_idem (X : Ext) (hc : ∀ s, X.canonName (X.canonName s) = X.ca
   | [] => by simp [normalizeExtra]
   | m :: ms => by simp only [normalizeExtra]; rw [normM_idem X hc m, normalize_idem X hc ms]
 end
+
+/-! ### 4b. Every constructed marker round-trips -/
+
+/-- the literals of a comparison are plain (no backslash, CR, LF, NUL, surrogate) and contain at most one
+kind of quote — true of every literal written with PEP 508 string characters -/
+def LitOK (a : Atom) : Prop :=
+  (∀ s, a.lhs = .val s → PlainStr s ∧ ¬ (s.contains 34 = true ∧ s.contains 39 = true)) ∧
+  (∀ s, a.rhs = .val s → PlainStr s ∧ ¬ (s.contains 34 = true ∧ s.contains 39 = true))
+
+theorem canonAtom_of (a : Atom) (h1 : VarOpCanon a) (h2 : LitOK a) : CanonAtom a := by
+  obtain ⟨l, o, r⟩ := a
+  obtain ⟨v1, v2, v3⟩ := h1
+  obtain ⟨l1, l2⟩ := h2
+  refine ⟨?_, v3, ?_⟩
+  · cases l with
+    | var s => exact v1 s rfl
+    | val s => exact l1 s rfl
+  · cases r with
+    | var s => exact v2 s rfl
+    | val s => exact l2 s rfl
+
+theorem varOpCanon_norm (X : Ext) (a : Atom) (h : VarOpCanon a) : VarOpCanon (normAtom X a) := by
+  obtain ⟨v1, v2, v3⟩ := h
+  unfold normAtom
+  by_cases h1 : isExtraVar a.lhs = true
+  · simp only [h1, if_true]
+    exact ⟨v1, (fun s hs => by cases hs), v3⟩
+  · by_cases h2 : isExtraVar a.rhs = true
+    · simp only [h1, h2, if_true, Bool.false_eq_true, if_false]
+      exact ⟨(fun s hs => by cases hs), v2, v3⟩
+    · simp only [h1, h2, Bool.false_eq_true, if_false]
+      exact ⟨v1, v2, v3⟩
+
+/-- **Every constructed marker round-trips** (character level, through `Marker.__init__`).  Whatever text
+`Marker(src)` accepted — any layout, nesting, spelling of variables — if the literals of the resulting marker
+are written with PEP 508 string characters, then `Marker(str(m))` succeeds and yields a marker that is equal
+to `m`, hashes alike, denotes the same formula and evaluates identically under every valuation. -/
+theorem constructed_marker_roundtrip (X : Ext) (hc : ∀ s, X.canonName (X.canonName s) = X.canonName s)
+    (src : Str) (m : List M) (h : mkMarker X src = .ok m) (hl : ∀ a ∈ atomsL m, LitOK a) :
+    ∃ m', mkMarker X (str m) = .ok m' ∧ eq m' m = true ∧ hashKey m' = hashKey m ∧ formulaOf m' = formulaOf m ∧
+      ∀ ν : Atom → Res Bool, evalMarkers ν m' = evalMarkers ν m := by
+  unfold mkMarker at h
+  cases hp : parse src with
+  | error e => simp [hp, Except.map] at h
+  | ok l =>
+    simp only [hp, Except.map, Except.ok.injEq] at h
+    subst h
+    obtain ⟨hf, hv⟩ := parse_wf src l hp
+    obtain ⟨f, hf⟩ := Option.isSome_iff_exists.mp hf
+    have hf' : formulaOf (normalizeExtra X l) = some (MkParse.Formula.map (normAtom X) f) := by
+      have := fOfL_norm X l
+      rw [show fOfL l = some f from hf] at this
+      simpa [formulaOf] using this
+    have hatoms := atomsL_norm X l
+    refine marker_roundtrip_char X _ _ hf' ?_ ?_
+    · intro a ha
+      refine canonAtom_of a ?_ (hl a ha)
+      rw [hatoms] at ha
+      obtain ⟨b, hb, rfl⟩ := List.mem_map.mp ha
+      exact varOpCanon_norm X b (hv b hb)
+    · intro a ha
+      rw [hatoms] at ha
+      obtain ⟨b, _, rfl⟩ := List.mem_map.mp ha
+      exact normAtom_idem X hc b
 
 /-! ### 5. Equality and hash -/
 
